@@ -8,9 +8,75 @@ import struct
 from . import codec
 
 
+def _swapcase_differs(s):
+    t = s.swapcase()
+    return t if t != s else None
+
+
+def http_reply_cls(item, key, world):
+    """A reply of spec/Handshake.tla's abstract classes, in one of the equivalent spellings RFC 7230 allows
+    (header order, name casing, optional whitespace, obs-fold, unrelated duplicate headers), chosen by item['spell']."""
+    import random
+    rng = random.Random(item.get('spell', 0))
+    st = item['status']
+    line = {"101": "HTTP/1.1 101 Switching Protocols", "101nr": "HTTP/1.1 101", "200": "HTTP/1.1 200 OK",
+            "400": "HTTP/1.1 400 Bad Request", "garbage": "ICY xyz OK"}[st]
+    good = codec.accept_for(key if key is not None else b'x').decode('ascii')
+    ac = item['accept']
+    accept = {"exact": good, "missing": None, "other_key": codec.accept_for(b'dGhlIHNhbXBsZSBub25jZQ==').decode('ascii'),
+              "case_swapped": good.swapcase(), "lower_cased": good.lower(), "upper_cased": good.upper(),
+              "truncated": good[:-1], "extended": good + 'A', "empty": ''}[ac]
+    if ac in ('case_swapped', 'lower_cased', 'upper_cased') and accept == good:
+        accept = good[:-2] + ('b=' if good[-2] != 'b' else 'c=')      # (digest without letters: fall back to a wrong value)
+    hdrs = []
+    up = {"websocket": "websocket", "WebSocket": "WebSocket", "other": "h2c", "missing": None}[item['upgrade']]
+    if up is not None:
+        hdrs.append(['Upgrade', up])
+    hdrs.append(['Connection', 'Upgrade'])
+    if accept is not None:
+        hdrs.append(['Sec-WebSocket-Accept', accept])
+    if item.get('proto'):
+        hdrs.append(['Sec-WebSocket-Protocol', item['proto']])
+    if item.get('ext'):
+        hdrs.append(['Sec-WebSocket-Extensions', item['ext']])
+    spell = item.get('spell', 0)
+    if spell:
+        hdrs.append(['Server', 'sim'])
+        hdrs.append(['X-Dup', 'a'])
+        hdrs.append(['X-Dup', 'b'])
+        rng.shuffle(hdrs)
+    lines = [line]
+    for name, val in hdrs:
+        if spell:
+            name = rng.choice([name, name.lower(), name.upper(), name.swapcase()])
+            form = rng.randrange(4)
+            if form == 0:
+                lines.append('%s:%s' % (name, val))
+            elif form == 1:
+                lines.append('%s: \t %s  ' % (name, val))
+            elif form == 2 and val != '':
+                lines.append('%s:\r\n  %s' % (name, val))          # obs-fold: value on a continuation line
+            else:
+                lines.append('%s: %s' % (name, val))
+        else:
+            lines.append('%s: %s' % (name, val))
+    size = item.get('size', 'normal')
+    if size != 'normal':
+        target = {"exact16k": 16384, "big_term": 16385 + (spell % 600), "big_unterm": 16390 + (spell % 600)}[size]
+        base = len('\r\n'.join(lines).encode('latin-1')) + 4
+        fill = target - base - len('\r\nX-Pad: ')
+        lines.insert(1 + (spell % max(1, len(lines) - 1)) if spell else len(lines), 'X-Pad: ' + 'p' * fill)
+    data = '\r\n'.join(lines).encode('latin-1') + b'\r\n\r\n'
+    if size == 'big_unterm':
+        data = data[:-4]
+    return data
+
+
 def http_reply(item, key, world):
     """Build an HTTP upgrade reply from an abstract description."""
     v = item.get('v', 'ok')
+    if v == 'cls':
+        return http_reply_cls(item, key, world)
     status = item.get('status', 101 if v in ('ok', 'badaccept', 'noaccept', 'noupgrade', 'badupgrade') else 200)
     reason = item.get('reason_phrase', 'Switching Protocols' if status == 101 else 'Nope')
     lines = ['HTTP/1.1 %d %s' % (status, reason) if reason != '' else 'HTTP/1.1 %d' % status]
